@@ -268,6 +268,19 @@ impl<'tcx> Cx<'tcx> {
                 fields.push(("uneval", s(self.path(uv.def))));
                 if let Some(p) = uv.promoted {
                     fields.push(("promoted", J::I(p.index() as i128)));
+                } else if ty.is_integral() || ty.is_bool() {
+                    let r = std::panic::catch_unwind(std::panic::AssertUnwindSafe(|| {
+                        c.const_.try_eval_scalar_int(self.tcx, tenv)
+                    }));
+                    if let Ok(Some(si)) = r {
+                        let size = si.size();
+                        let v: i128 = if ty.is_signed() {
+                            si.to_int(size)
+                        } else {
+                            si.to_uint(size) as i128
+                        };
+                        fields.push(("int", J::I(v)));
+                    }
                 }
             }
         }
@@ -505,7 +518,7 @@ impl<'tcx> Cx<'tcx> {
             locals.push(J::O(vec![
                 ("ty", s(self.ty(d.ty))),
                 ("mut", J::B(d.mutability.is_mut())),
-                ("user", J::B(d.is_user_variable())),
+                ("user", J::B(matches!(d.local_info, mir::ClearCrossCrate::Set(_)) && d.is_user_variable())),
                 ("span", self.span(d.source_info.span)),
             ]));
         }
@@ -818,12 +831,39 @@ impl Callbacks for Cb {
             tcx,
             krate: name.clone(),
         };
-        // phase 1: clone every built body before any other query can steal it
+        // phase 1: clone every built body before any other query can steal it.
+        // Const-like bodies first: building one body can const-evaluate another
+        // (array lengths), which steals that one's built MIR; fall back to the
+        // CTFE MIR for those.
         let mut cloned: Vec<(LocalDefId, Body<'tcx>)> = vec![];
-        for def in tcx.hir_body_owners() {
-            let built = tcx.mir_built(def);
-            let body: Body<'tcx> = built.borrow().clone();
-            cloned.push((def, body));
+        let mut missing: Vec<J> = vec![];
+        let owners: Vec<LocalDefId> = tcx.hir_body_owners().collect();
+        let is_const_like = |d: LocalDefId| {
+            matches!(
+                tcx.def_kind(d.to_def_id()),
+                DefKind::Const { .. }
+                    | DefKind::AssocConst { .. }
+                    | DefKind::AnonConst
+                    | DefKind::InlineConst
+                    | DefKind::Static { .. }
+            )
+        };
+        for pass in 0..2 {
+            for &def in owners.iter() {
+                if (pass == 0) != is_const_like(def) {
+                    continue;
+                }
+                let built = tcx.mir_built(def);
+                if !built.is_stolen() {
+                    let body: Body<'tcx> = built.borrow().clone();
+                    cloned.push((def, body));
+                } else if is_const_like(def) {
+                    let body: Body<'tcx> = tcx.mir_for_ctfe(def.to_def_id()).clone();
+                    cloned.push((def, body));
+                } else {
+                    missing.push(s(cx.path(def.to_def_id())));
+                }
+            }
         }
         // phase 2: serialise
         let mut bodies = vec![];
@@ -847,6 +887,7 @@ impl Callbacks for Cb {
             ("impls", impls),
             ("fns", fns),
             ("bodies", J::A(bodies)),
+            ("missing_bodies", J::A(missing)),
         ]);
         let mut out = String::with_capacity(64 << 20);
         root.write(&mut out);
